@@ -1,51 +1,66 @@
-"""B-leb: functional correctness of the generic LEB128 decoders (and encoders) -- DESIGN.md 6 C09, appendix A.1.
+"""B-leb: functional correctness of the generic LEB128 decoders and encoders -- DESIGN.md 6 C09, appendix A.1.
 
 WHAT THIS BATCH CLOSES.  In core.py the five LEB128 methods of `trait Reader` (`read_uleb128`, `read_uleb128_u16`,
 `read_uleb128_u32`, `read_sleb128`, `skip_leb128`) are R-DELEGATE: required methods whose functional contracts (value ==
-`O.uleb(0)` / `O.sleb(0)`, consumption == `O.leb_len(0)`, the rejection clause) are ASSUMED in Verus, and the free functions
-they delegate to (`leb128::read::{unsigned, signed, u16, skip}`, /repo/src/leb128.rs) are verified in core only for safety,
-termination, progress and frame.  Here the SAME clauses (text taken from the trait contracts as generated by core.populate,
-`self` renamed to `r`; checked at build time against the literal copies below, `Lost` -> exit 2 on any drift) are PROVED on
-the real text of the four generic functions, for every `R: Reader` that satisfies the primitive `read_u8` contract
-(Ok => adv by 1 and value == O.at(0); Err <=> O.len < 1; Err => unch).  Nothing about EndianSlice is used.
+`O.uleb(0)` / `O.sleb(0)`, consumption == `O.leb_len(0)`, the rejection clause) are ASSUMED in Verus (proved only by Kani on
+EndianSlice, K-LEB), and the free functions they delegate to (`leb128::read::{unsigned, signed, u16, skip}`,
+/repo/src/leb128.rs) are verified in core only for safety, termination, progress and frame.  Here the SAME clauses (literal
+copies in TRAIT below, `self` renamed to `r`; compared at build time with the contract text core.populate generated for
+`trait Reader` -- any drift raises Lost -> exit 2) are PROVED on the real text of the four generic functions, for every
+`R: Reader` that satisfies the primitive `read_u8` contract (Ok => adv by 1 and value == O.at(0); Err <=> O.len < 1;
+Err => unch).  Nothing about EndianSlice is used.
 
 build = core.populate, then the `leb128::read` chunk added by core is REPLACED by a fresh extraction of the same item
 (`pub mod read {` of leb128.rs) spliced with core's safety contract + the functional clauses (a second `splice` on core's
-Item would emit a second `ensures` block, which Verus rejects).  A build-time check verifies that every clause of core's
-contract on these four functions is still present on the replacement (superset).
+Item would emit a second `ensures` block and a second loop-spec block, which Verus rejects).  `check_superset` verifies at
+build time that every clause core put on these four functions is still stated on the replacement.
 
-FUNCTIONS UNDER CONTRACT (all verified with their real bodies)
+FUNCTIONS UNDER CONTRACT (all verified with their real bodies; O = old(r).rv(), F = final(r).rv())
   leb128::read::skip        [C09:leb-skip]     Ok  => O.leb_ok(0) && adv(O, F, O.leb_len(0));  Err => !O.leb_ok(0)   (no length limit)
   leb128::read::unsigned    [C09:uleb-value]   Ok(v) => O.leb_ok(0) && adv(O, F, O.leb_len(0)) && v == O.uleb(0)
                             [C09:uleb-reject]  Err => !O.leb_ok(0) || O.uleb(0) > u64::MAX || O.leb_len(0) > 10
                             [C09:uleb-frontier] Ok <=> O.leb_ok(0) && O.leb_len(0) <= 10 && O.uleb(0) <= u64::MAX   (exact accept set)
-                                               and, for a terminated 10-byte number, Ok <=> 10th byte is 0x00 or 0x01
+                                               and, for a terminated 10-byte number, Ok <=> the 10th byte is 0x00 or 0x01
   leb128::read::u16         [C09:uleb-value]   as above;  [C09:uleb-reject] Err => !leb_ok || uleb > u16::MAX || leb_len > 3
                             [C09:uleb-frontier] Ok <=> leb_ok && leb_len <= 3 && uleb <= u16::MAX; 3-byte number: Ok <=> third byte <= 3
   leb128::read::signed      [C09:sleb-value]   Ok(v) => O.leb_ok(0) && adv(O, F, O.leb_len(0)) && v == O.sleb(0)
                             [C09:sleb-reject]  Err => !leb_ok || sleb > i64::MAX || sleb < i64::MIN || leb_len > 10
-                            [C09:sleb-frontier] Ok <=> leb_ok && leb_len <= 10 && i64::MIN <= sleb <= i64::MAX; 10-byte number: Ok <=> 10th byte
-                                               is 0x00 or 0x7f
-  (all four keep core's [C01:leb-progress], [C01:frame] and the built-in overflow / shift-width / termination obligations)
-  trait-method bodies (R-TRAITSPLIT, see `populate_delegates`): the five one-line default bodies of `trait Reader`
-  (`leb128::read::unsigned(self)` ..., and `read_uleb128_u32`'s `try_into` narrowing) are re-extracted verbatim into a
-  generated sub-trait `ReaderLebDefaults: Reader` and verified against the very contracts the trait assumes, so the step
-  "free function => trait method" is a proof too, not a regex check.
-  leb128::write::Leb128::{unsigned, signed}  [C09:leb-roundtrip]  the emitted bytes decode (uleb_in / sleb_in / leb_len_in) to the
-                            value in exactly `len` bytes; with the decoder contracts above: decode o encode == id (lemma
-                            `lemma_roundtrip_*` in vx/specs/leb.rs) -- see `populate_encoders`.
+                            [C09:sleb-frontier] Ok <=> leb_ok && leb_len <= 10 && i64::MIN <= sleb <= i64::MAX; 10-byte number:
+                                               Ok <=> the 10th byte is 0x00 or 0x7f
+  (all four keep core's [C01:leb-progress], [C01:frame], `O.leb_len(0) >= 1` and the built-in overflow / shift-width /
+  termination obligations; the loop invariants and proof-hint lines that carry a property are tagged with it)
+  ReaderLebDefaults::{skip_leb128, read_uleb128, read_uleb128_u32, read_uleb128_u16, read_sleb128}_default  (R-TRAITSPLIT,
+                            `populate_delegates`): the five one-line default bodies of `trait Reader` re-extracted verbatim into a
+                            generated sub-trait and verified against exactly the contracts the trait methods assume, so the
+                            step "free function => trait method" (incl. `read_uleb128_u32`'s `try_into` narrowing, extra
+                            clause [C09:uleb-reject] Err => !leb_ok || uleb > u32::MAX || leb_len > 10) is a proof, not only
+                            core.py's regex guard `check_delegates`.
+  leb128::write::Leb128::{unsigned, signed}  [C09:leb-roundtrip]  (`populate_encoders`; wcore.py proves safety and length only)
+                            leb_len_in(seq, 0, count) == count  and  uleb_in / sleb_in(seq, 0, count) == val: the emitted bytes
+                            decode, by the same DWARF 7.6 spec functions the decoders are proved against, to the value in exactly
+                            `count` bytes;  1 <= count <= 10.  `theorem_uleb_roundtrip / theorem_sleb_roundtrip` (vx/specs/leb.rs,
+                            tagged [C09:leb-roundtrip]) compose the encoder and decoder contracts: decode o encode == id.
+  leb128::write::Leb128::{bytes, len}, low_bits_of_u64, low_bits_of_byte: helper contracts as in wcore/core.
 
-ASSUMED (TRUSTED): nothing beyond core.TRUSTED (+ wcore's ledger for the encoder half).  The primitive `read_u8` contract stays
-an assumption about Reader implementations (A-READER; discharged for the shipped readers by batch `eslice` and Kani
-K-ESLICE); after this batch the LEB128 contracts of the trait are no longer independent assumptions for any reader that uses
-the default methods (both shipped readers do).
+ASSUMED (TRUSTED): core.TRUSTED + `axiom_i64_from_u8` (vstd specifies `From<u8>` only for unsigned targets and the orphan
+rule forbids adding `FromSpecImpl<u8> for i64`: "`i64::from(u8)` is value preserving", same axiom as in batch `line`; used by
+`signed`).  The primitive `read_u8` contract stays the assumption about Reader implementations (A-READER; discharged for the
+shipped readers by batch `eslice` and Kani K-ESLICE).  After this batch the LEB128 contracts of `trait Reader` are
+consequences of the `read_u8` contract for every reader that does not override the five default methods (no reader in gimli
+overrides them); they are still *stated* as assumptions in core.py because of Verus' trait cycle rule (R-DELEGATE).
 
-NOT DECIDED here: a `Reader` implementation that overrides the five default methods (none in gimli).
-Proof structure: vx/specs/leb.rs.  Loop invariant = `uleb_inv/sleb_inv(O, r.rv(), k, result)`: after k groups
-"spec(whole) == result + 2^(7k) * spec(rest)", `shift == 7k`, `result < 2^(7k)`; one spec-side step lemma per byte
-(`lemma_uleb_step`), one machine-arithmetic lemma per `result |= low_bits << shift` (`lemma_or_add_u64/i64`, bit_vector),
-the 10th-byte frontier lemmas (`lemma_uleb_reject_10th`, `lemma_sleb_reject_10th`, `lemma_uleb_reject_3rd`), the sign-extension
-lemma (`lemma_sign_extend_i64`).
+NOT DECIDED here: a `Reader` implementation that overrides the five default methods; `uleb128_size/sleb128_size`
+(batch wcore, [C09:leb-size]); canonicity (shortest encoding) of the encoder output beyond wcore's closed-form size.
+Dropped (R-DROP): `leb128::write::{unsigned, signed}` free fns and `Leb128::write` (std::io::Write), `uleb128_size`,
+`sleb128_size` (verified in wcore).
+
+PROOF STRUCTURE (vx/specs/leb.rs, every lemma proved): loop invariant `uleb_inv/sleb_inv(O, r.rv(), k, result)` = after k
+groups "spec(whole) == result + 2^(7k) * spec(rest)", `shift == 7k`, `result < 2^(7k)`; one spec-side step lemma per byte
+(`lemma_uleb_step`, `lemma_sleb_step`), one machine-arithmetic lemma per `result |= low_bits << shift` (`lemma_or_add_u64/i64`,
+bit_vector + vstd power2), the frontier lemmas (`lemma_uleb_reject_10th`, `lemma_sleb_reject_10th`, `lemma_uleb_reject_3rd`,
+`lemma_sleb_step_10th`), the sign-extension lemma (`lemma_sign_extend_i64`); encoders: `usum` (sum of the groups written so
+far) with invariant `usum(bytes, len) + val * 2^(7 len) == v0`, closed form `lemma_leb_encoded`, window transfer
+`lemma_leb_transfer`.  Slowest function ~4 s SMT on a loaded machine (Leb128::signed), everything else < 2 s.
 """
 import re
 from lib import *
@@ -161,7 +176,6 @@ def leb_read_item(ctx):
     lb = Source('leb128.rs', ctx)
     lr = lb.item(r'^pub mod read \{', label='read').clean()
     lr.insert_after('pub mod read {', '\n    use vstd::prelude::*;\n    use vstd::arithmetic::power2::*;\n    use crate::read::reader::*;\n    use crate::vspec::*;\n    use crate::vspec_leb::*;\n    broadcast use crate::vspec::group_seq_views;\n')
-    FRAME = TRAIT['read_uleb128'][2]
 
     # Anchors of the ghost insertions are chosen on text a realistic mutant does not edit (`loop`, `result |= `, the
     # `return Err(..)` statements, `if byte & CONTINUATION_BIT == 0 {`); a lost anchor is exit 2, never a silent pass.
@@ -171,7 +185,7 @@ def leb_read_item(ctx):
               ensures=[PROG] + [skip_tagged(c) for c in TRAIT['skip_leb128']] + [f'{O}.leb_len(0) >= 1'],
               loops={0: f'invariant\n    skip_inv({O}, r.rv()), // [C09:leb-skip]\n    c == r.rv(),\n decreases r.rv().len'},
               before=[('loop', 'let ghost mut c = r.rv(); proof { lemma_leb_init(c); }')],
-              after=[('let byte = r.read_u8()?;', f'proof {{ assert(1u8 << 7 == 0x80u8) by (bit_vector); lemma_skip_step({O}, c, r.rv(), byte); c = r.rv(); }}')],
+              after=[('let byte = r.read_u8()?;', f'proof {{ assert(1u8 << 7 == 0x80u8) by (bit_vector); lemma_skip_step({O}, c, r.rv(), byte); c = r.rv(); }} // [C09:leb-skip]')],
               owners=OWN)
 
     # ---- unsigned
@@ -179,15 +193,15 @@ def leb_read_item(ctx):
               ensures=[PROG] + TRAIT['read_uleb128'] + [
                   f'[C09:uleb-frontier] res is Ok <==> {O}.leb_ok(0) && {O}.leb_len(0) <= 10 && {O}.uleb(0) <= u64::MAX',
                   f'[C09:uleb-frontier] {O}.leb_ok(0) && {O}.leb_len(0) == 10 ==> (res is Ok <==> {O}.at(9) == 0x00 || {O}.at(9) == 0x01)'],
-              loops={0: f'invariant_except_break\n    uleb_inv({O}, r.rv(), k, result as nat), // [C09:uleb-value]\n    c == r.rv(), 1 <= k <= 9, shift == 7 * k,\n'
+              loops={0: f'invariant_except_break\n    uleb_inv({O}, r.rv(), k, result as nat), // [C09:uleb-value]\n    c == r.rv(), 1 <= k <= 9, shift == 7 * k, // [C09:uleb-value]\n'
                         ' ensures false, decreases 70 - shift'},
               before=[('let byte = r.read_u8()?;', 'let ghost c0 = r.rv(); proof { lemma_leb_init(c0); }'),
                       ('if byte & CONTINUATION_BIT == 0 {', f'proof {{ {BV8} lemma_uleb_step({O}, c0, r.rv(), 0, 0, byte); lemma_pow2_7(0); }}'),
                       ('loop', 'let ghost mut c = r.rv(); let ghost mut k: nat = 1;'),
-                      ('return Err(Error::BadUnsignedLeb128);', f'proof {{ lemma_uleb_reject_10th({O}, c, result as nat, byte); }}'),
+                      ('return Err(Error::BadUnsignedLeb128);', f'proof {{ lemma_uleb_reject_10th({O}, c, result as nat, byte); }} // [C09:uleb-reject]'),
                       ('result |= ',
                        f'proof {{ {BV8} assert(byte == 0u8 || byte == 1u8 ==> byte & 0x7fu8 == byte) by (bit_vector); '
-                       f'lemma_uleb_step({O}, c, r.rv(), k, result as nat, byte); lemma_or_add_u64(result, low_bits, shift as u64); c = r.rv(); }}'),
+                       f'lemma_uleb_step({O}, c, r.rv(), k, result as nat, byte); lemma_or_add_u64(result, low_bits, shift as u64); c = r.rv(); }} // [C09:uleb-value]'),
                       ('shift += 7;', 'proof { assert(byte == 0u8 || byte == 1u8 ==> byte & 0x80u8 == 0u8) by (bit_vector); k = k + 1; }')],
               owners=OWN)
 
@@ -201,11 +215,11 @@ def leb_read_item(ctx):
                       ('if byte & CONTINUATION_BIT == 0 {', f'let ghost c1 = r.rv(); proof {{ {BV8} lemma_uleb_step({O}, c0, c1, 0, 0, byte); lemma_pow2_7(0); }}'),
                       ('result |= u16::from(',
                        f'let ghost c2 = r.rv(); proof {{ {BV8} lemma_uleb_step({O}, c1, c2, 1, result as nat, byte); lemma_pow2_7(1); '
-                       'assert(forall|a: u16, b: u16| a < 128 && b < 128 ==> (a | (b << 7u16)) == a + b * 128) by (bit_vector); }'),
-                      ('return Err(Error::BadUnsignedLeb128);', f'proof {{ lemma_uleb_reject_3rd({O}, c2, result as nat, byte); }}'),
+                       'assert(forall|a: u16, b: u16| a < 128 && b < 128 ==> (a | (b << 7u16)) == a + b * 128) by (bit_vector); } // [C09:uleb-value]'),
+                      ('return Err(Error::BadUnsignedLeb128);', f'proof {{ lemma_uleb_reject_3rd({O}, c2, result as nat, byte); }} // [C09:uleb-reject]'),
                       ('result += u16::from(byte) << 14;',      # (core.py's anchor)
                        f'proof {{ {BV8} lemma_uleb_step({O}, c2, r.rv(), 2, result as nat, byte); lemma2_to64(); '
-                       'assert(byte <= 3u8 ==> byte & 0x80u8 == 0u8 && (byte as u16) << 14u16 == (byte as u16) * 16384) by (bit_vector); }')],
+                       'assert(byte <= 3u8 ==> byte & 0x80u8 == 0u8 && (byte as u16) << 14u16 == (byte as u16) * 16384) by (bit_vector); } // [C09:uleb-value]')],
               owners=OWN)
 
     # ---- signed
@@ -215,7 +229,7 @@ def leb_read_item(ctx):
                   f'[C09:sleb-reject] res is Err ==> !{O}.leb_ok(0) || {O}.sleb(0) > i64::MAX || {O}.sleb(0) < i64::MIN || {O}.leb_len(0) > 10',
                   f'[C09:sleb-frontier] res is Ok <==> {O}.leb_ok(0) && {O}.leb_len(0) <= 10 && i64::MIN <= {O}.sleb(0) <= i64::MAX',
                   f'[C09:sleb-frontier] {O}.leb_ok(0) && {O}.leb_len(0) == 10 ==> (res is Ok <==> {O}.at(9) == 0x00 || {O}.at(9) == 0x7f)'],
-              loops={0: f'invariant_except_break\n    sleb_inv({O}, r.rv(), k, result as nat), // [C09:sleb-value]\n    c == r.rv(), 0 <= result, k <= 9, shift == 7 * k,\n'
+              loops={0: f'invariant_except_break\n    sleb_inv({O}, r.rv(), k, result as nat), // [C09:sleb-value]\n    c == r.rv(), 0 <= result, k <= 9, shift == 7 * k, // [C09:sleb-value]\n'
                         f' ensures last == byte, {O}.leb_ok(0), adv({O}, r.rv(), {O}.leb_len(0)), {O}.leb_len(0) == k, shift == 7 * k, 1 <= k <= 10,\n'
                         f'   k <= 9 ==> 0 <= result && (result as nat) < pow2(7 * k) && {O}.sleb(0) == (if last & 0x40 != 0 {{ {SX} }} else {{ result as int }}), // [C09:sleb-value]\n'
                         f'   k == 10 ==> {O}.sleb(0) == result && ({O}.at(9) == 0x00 || {O}.at(9) == 0x7f), // [C09:sleb-value]\n'
@@ -224,17 +238,114 @@ def leb_read_item(ctx):
                         f'   k <= 9 ==> (result | (!0i64 << (shift as u64))) as int == {SX},\n'
                         ' decreases 70 - shift'},
               before=[('loop', 'let ghost mut c = r.rv(); let ghost mut k: nat = 0; let ghost mut last: u8 = 0u8; proof { lemma_leb_init(c); }'),
-                      ('return Err(Error::BadSignedLeb128);', f'proof {{ lemma_sleb_reject_10th({O}, c, result as nat, byte); }}'),
+                      ('return Err(Error::BadSignedLeb128);', f'proof {{ lemma_sleb_reject_10th({O}, c, result as nat, byte); }} // [C09:sleb-reject]'),
                       ('result |= ',
                        f'proof {{ {BV8} assert(byte == 0u8 || byte == 0x7fu8 ==> byte & 0x80u8 == 0u8 && byte & 0x7fu8 == byte) by (bit_vector); '
                        f'axiom_i64_from_u8(byte & 0x7fu8); lemma_sleb_step({O}, c, r.rv(), k, result as nat, byte); '
                        f'if shift < 63 {{ lemma_or_add_i64(result, low_bits, shift as u64); }} else {{ lemma_or_add_i64_last(result, low_bits); lemma_sleb_step_10th({O}, c, r.rv(), result as nat, byte); }} '
-                       'c = r.rv(); k = k + 1; last = byte; }'),
+                       'c = r.rv(); k = k + 1; last = byte; } // [C09:sleb-value]'),
                       ('if byte & CONTINUATION_BIT == 0 {',
                        'proof { assert(1u8 << 6 == 0x40u8) by (bit_vector); assert(((0x40u8 & byte) == 0x40u8) == (byte & 0x40u8 != 0u8)) by (bit_vector); '
-                       'if byte & 0x80u8 == 0u8 && shift < 64 { lemma_sign_extend_i64(result, shift as u64); } }')],
+                       'if byte & 0x80u8 == 0u8 && shift < 64 { lemma_sign_extend_i64(result, shift as u64); } } // [C09:sleb-value]')],
               owners=OWN)
     return lr
+
+
+def populate_delegates(ctx, sk):
+    """R-TRAITSPLIT: the five one-line default bodies of `trait Reader` (R-DELEGATE in core.py: turned into required methods
+    because a trait's own default method may not call a generic fn bounded by that trait -- a definition cycle in Verus) are
+    extracted again, bodies verbatim, into a generated sub-trait `ReaderLebDefaults: Reader<Offset = usize>` and verified
+    against the contract core.py assumes for the corresponding trait method (same clause text, taken from TRAIT).  The methods
+    are renamed `<m>_default` (Verus cannot disambiguate equal method names of a trait and its supertrait in contracts); the
+    renaming, the new trait header and the removal of the two associated-type declarations are the only rewrites (logged)."""
+    rds = Source('read/reader.rs', ctx)
+    d = rds.item(r'^pub trait Reader: Debug \+ Clone', label='ReaderLebDefaults')
+    d.keep_only(core.LEB_DELEG)
+    d.custom('R-TRAITSPLIT', 'pub trait Reader: Debug + Clone {', 'pub trait ReaderLebDefaults: Reader<Offset = usize> {')
+    d.custom('R-TRAITSPLIT', 'type Endian: Endianity;', '')
+    d.custom('R-TRAITSPLIT', 'type Offset: ReaderOffset;', '')
+    for m in core.LEB_DELEG:
+        d.custom('R-TRAITSPLIT', f'fn {m}(&mut self)', f'fn {m}_default(&mut self)')
+    d.clean(offset=False)
+    for m in core.LEB_DELEG:
+        extra = []
+        if m == 'read_uleb128_u32':     # the narrowing error of `try_into` (not stated on the trait method)
+            extra = [f'[C09:uleb-reject] res is Err ==> !{O}.leb_ok(0) || {O}.uleb(0) > u32::MAX || {O}.leb_len(0) > 10']
+        d.splice(m + '_default', ret='res', owners=OWN,
+                 ensures=[c.replace('old(r)', 'old(self)').replace('final(r)', 'final(self)') for c in TRAIT[m] + extra])
+    sk.add('read::reader', d)
+
+
+def bvb(b0):
+    """bit facts about the byte written in one encoder iteration (b0: the ghost name of the 7 payload bits' source byte)"""
+    return ('assert(1u8 << 7 == 0x80u8) by (bit_vector); assert(!0x80u8 == 0x7fu8) by (bit_vector); '
+            f'let b0: u8 = {b0}; '
+            'assert((b0 | 0x80u8) & 0x7fu8 == b0 & 0x7fu8 && (b0 | 0x80u8) & 0x80u8 != 0u8 && (b0 & 0x7fu8) & 0x7fu8 == b0 & 0x7fu8 '
+            '&& (b0 & 0x7fu8) & 0x80u8 == 0u8 && (b0 < 128u8 ==> b0 & 0x7fu8 == b0 && b0 & 0x80u8 == 0u8)) by (bit_vector); ')
+
+
+# at `return Leb128 { .. }`: the emitted bytes are bytes@.take(len); its decoding specs in closed form
+RET = ('proof { let n = len as nat; let t = bytes@.take(len as int); '
+       'assert forall|i: int| 0 <= i < n implies t[i] == bytes@[i] by {} '
+       'lemma_usum_ext(t, bytes@, n); assert(all_cont(t, (n - 1) as nat)); assert(t[n - 1] == bytes@[n - 1]); '
+       'lemma_leb_encoded(t, n); lemma_pow2_7(n); '
+       'assert(0 * pow2(7 * n) == 0) by (nonlinear_arith); assert(-1 * pow2(7 * n) == -(pow2(7 * n) as int)) by (nonlinear_arith); } // [C09:leb-roundtrip]')
+
+
+def populate_encoders(ctx, sk):
+    """`leb128::write::Leb128::{unsigned, signed}` proved FUNCTIONALLY (wcore.py proves safety and the length only): the emitted
+    byte string decodes -- by the same DWARF 7.6 spec functions the decoders are proved against -- to the encoded value in
+    exactly `len` bytes.  Together with the decoder contracts this is decode o encode == id (`lemma_roundtrip`, vx/specs/leb.rs).
+    The bound `len <= 9` inside the loops reuses wcore's unrolled shift invariant (`inv_unsigned/inv_signed`, ghost text)."""
+    from batches import wcore
+    lb = Source('leb128.rs', ctx)
+    l64 = lb.item(r'^fn low_bits_of_u64').clean()
+    l64.splice('low_bits_of_u64', ret='res', ensures=['res as u64 == val & 0x7f', 'res < 128'],
+               before=[('let byte =', 'proof { assert(u8::MAX as u64 == 0xffu64); assert(((val & 0xffu64) as u8) & 0x7fu8 == (val & 0x7fu64) as u8) by (bit_vector); '
+                        'assert(((val & 0x7fu64) as u8) as u64 == val & 0x7fu64) by (bit_vector); assert(val & 0x7fu64 < 128u64) by (bit_vector); }')],
+               owners=OWN)
+    sk.add('leb128', l64)
+    lw = lb.item(r'^pub mod write \{', label='write')
+    lw.drop(['write'])            # Leb128::write<W: std::io::Write>
+    lw.drop(['unsigned'], nth=1)  # free fn unsigned<W: std::io::Write>
+    lw.drop(['signed'], nth=1)    # free fn signed<W: std::io::Write>
+    lw.drop(['uleb128_size', 'sleb128_size'])     # verified in batch wcore ([C09:leb-size])
+    lw.clean()
+    lw.insert_after('pub mod write {', '\n    use vstd::prelude::*;\n    use vstd::arithmetic::power2::*;\n    use crate::vspec::*;\n    use crate::vspec_leb::*;\n')
+    lw.insert_after('impl Leb128 {', """
+        /// the encoded bytes / well-formedness (ghost accessors for the private fields)
+        pub closed spec fn seq(&self) -> Seq<u8> { self.bytes@.take(self.len as int) }
+        pub closed spec fn wf(&self) -> bool { self.len <= 10 }
+        pub closed spec fn count(&self) -> nat { self.len as nat }
+""")
+    lw.own(OWN)
+    lw.splice('bytes', ret='res', requires=['self.wf()'], ensures=['res@ == self.seq()', 'res@.len() == self.count()'])
+    lw.splice('len', ret='res', requires=['self.wf()'], ensures=['res as nat == self.count()', 'res == self.seq().len()', 'res <= 10'])
+    SHAPE = ['res.wf()', 'res.seq().len() == res.count()', '1 <= res.count() <= 10',
+             '[C09:leb-roundtrip] leb_len_in(res.seq(), 0, res.count() as int) == res.count()']
+    lw.splice('unsigned', ret='res', attrs='#[verifier::loop_isolation(false)]',
+              ensures=SHAPE + ['[C09:leb-roundtrip] uleb_in(res.seq(), 0, res.count() as int) == val'],
+              loops={0: f'invariant {wcore.inv_unsigned("len")}, // [C09:leb-roundtrip]\n    len <= 9,\n'
+                        '    all_cont(bytes@, len as nat), // [C09:leb-roundtrip]\n'
+                        '    usum(bytes@, len as nat) + val * pow2(7 * len as nat) == v0, // [C09:leb-roundtrip]\n'
+                        ' decreases 10 - len'},
+              before=[('let mut bytes = [0; 10];', 'let ghost v0 = val; proof { lemma_pow2_7(0); }'),
+                      ('let mut byte = low_bits_of_u64(val);', 'proof { ' + wcore.bv_unsigned_steps() + ' lemma_enc_step_u64(val); } let ghost vin = val; let ghost s_in = bytes@;'),
+                      ('len += 1;', f'proof {{ {bvb("(vin & 0x7f) as u8")} assert(byte & 0x7fu8 == (vin & 0x7f) as u8); assert((val == 0) == (byte & 0x80u8 == 0u8)); '
+                                    'lemma_enc_step(s_in, bytes@, len as nat, vin as int, val as int, byte, v0 as int); } // [C09:leb-roundtrip]'),
+                      ('return Leb128 {', RET)])
+    lw.splice('signed', ret='res', attrs='#[verifier::loop_isolation(false)]',
+              ensures=SHAPE + ['[C09:leb-roundtrip] sleb_in(res.seq(), 0, res.count() as int) == val'],
+              loops={0: f'invariant {wcore.inv_signed("len")}, // [C09:leb-roundtrip]\n    len <= 9,\n'
+                        '    all_cont(bytes@, len as nat), // [C09:leb-roundtrip]\n'
+                        '    usum(bytes@, len as nat) + val * pow2(7 * len as nat) == v0, // [C09:leb-roundtrip]\n'
+                        ' decreases 10 - len'},
+              before=[('let mut bytes = [0; 10];', 'let ghost v0 = val; proof { lemma_pow2_7(0); }'),
+                      ('let mut byte = val as u8;', 'proof { ' + wcore.bv_signed_steps() + ' lemma_enc_step_i64(val); } let ghost vin = val; let ghost s_in = bytes@;'),
+                      ('len += 1;', f'proof {{ {bvb("vin as u8")} assert(byte & 0x7fu8 == (vin as u8) & 0x7fu8); assert(done == (byte & 0x80u8 == 0u8)); '
+                                    'lemma_enc_step(s_in, bytes@, len as nat, vin as int, (vin >> 7u64) as int, byte, v0 as int); } // [C09:leb-roundtrip]'),
+                      ('return Leb128 {', RET)])
+    sk.add('leb128', lw)
 
 
 def check_superset(old, new):
@@ -244,8 +355,6 @@ def check_superset(old, new):
         for tags, e in contract_of(old, fn):
             if e not in have:
                 raise Lost(f'leb: core clause of leb128::read::{fn} missing in the replacement: {e}')
-        for tags, e in contract_of(new, fn):
-            pass
 
 
 def populate(ctx, sk):
@@ -260,6 +369,8 @@ def populate(ctx, sk):
     ch = sk.mods['leb128']['chunks']
     ch[idx] = (new,) + tuple(ch[idx][1:])
     ctx.items.remove(old)          # the replaced extraction is not emitted
+    populate_delegates(ctx, sk)
+    populate_encoders(ctx, sk)
     return sk
 
 
